@@ -5,6 +5,7 @@ import (
 	"compress/gzip"
 	"encoding/binary"
 	"fmt"
+	"math"
 	"time"
 
 	"github.com/golang/snappy"
@@ -349,14 +350,97 @@ func thriftBytes(s *TSt) []byte {
 	return e.B
 }
 
-func statsStruct(p PageSpec, maxDef int) *TSt {
+// valLess orders two values of a column the way the format defines it for statistics.
+func valLess(col Column, a, b Val) bool {
+	switch col.Type {
+	case TypeBoolean:
+		return a.Bits&1 < b.Bits&1
+	case TypeInt32:
+		if col.CType == CTypeUint32 {
+			return uint32(a.Bits) < uint32(b.Bits)
+		}
+		return int32(uint32(a.Bits)) < int32(uint32(b.Bits))
+	case TypeInt64:
+		if col.CType == CTypeUint64 {
+			return a.Bits < b.Bits
+		}
+		return int64(a.Bits) < int64(b.Bits)
+	case TypeFloat:
+		return math.Float32frombits(uint32(a.Bits)) < math.Float32frombits(uint32(b.Bits))
+	case TypeDouble:
+		return math.Float64frombits(a.Bits) < math.Float64frombits(b.Bits)
+	}
+	return bytes.Compare(a.Bytes, b.Bytes) < 0
+}
+
+func isNaNVal(col Column, v Val) bool {
+	switch col.Type {
+	case TypeFloat:
+		f := math.Float32frombits(uint32(v.Bits))
+		return f != f
+	case TypeDouble:
+		f := math.Float64frombits(v.Bits)
+		return f != f
+	}
+	return false
+}
+
+// statsStruct builds the page's Statistics.  All its fields are optional in the format, so the kind (p.Pad mod 4) picks
+// which ones a foreign writer filled in: 0 null_count only, 1 min_value/max_value only, 2 everything (also the deprecated
+// min/max and distinct_count), 3 an empty struct.  Whatever is written is true.
+func statsStruct(col Column, p PageSpec, maxDef int) *TSt {
 	var nulls int64
 	for _, d := range p.Defs {
 		if int(d) < maxDef {
 			nulls++
 		}
 	}
-	return NewSt().SetI64(3, nulls)
+	st := NewSt()
+	kind := int(p.Pad) % 4
+	if kind == 0 || kind == 2 {
+		st.SetI64(3, nulls)
+	}
+	if kind == 1 || kind == 2 {
+		var mn, mx *Val
+		ok := len(p.Values) > 0
+		distinct := map[string]bool{}
+		for i := range p.Values {
+			v := p.Values[i]
+			distinct[valKey(v)] = true
+			if isNaNVal(col, v) {
+				ok = false // leave min/max out when a NaN is present
+				break
+			}
+			if mn == nil || valLess(col, v, *mn) {
+				mn = &p.Values[i]
+			}
+			if mx == nil || valLess(col, *mx, v) {
+				mx = &p.Values[i]
+			}
+		}
+		if ok && mn != nil {
+			enc := func(v Val) []byte {
+				if col.Type == TypeByteArray {
+					return append([]byte{}, v.Bytes...)
+				}
+				if col.Type == TypeBoolean {
+					return []byte{byte(v.Bits & 1)}
+				}
+				return PlainEncode(col.Type, []Val{v})
+			}
+			st.F[5] = TVal{T: TBinary, B: enc(*mx)}
+			st.F[6] = TVal{T: TBinary, B: enc(*mn)}
+			if kind == 2 {
+				signedOrder := !(col.CType == CTypeUint32 || col.CType == CTypeUint64 || col.Type == TypeByteArray)
+				if signedOrder { // the deprecated fields are only defined for the signed order
+					st.F[1] = TVal{T: TBinary, B: enc(*mx)}
+					st.F[2] = TVal{T: TBinary, B: enc(*mn)}
+				}
+				st.SetI64(4, int64(len(distinct)))
+			}
+		}
+	}
+	return st
 }
 
 // encodePage returns header+body bytes of one page (and of any page that has
@@ -410,6 +494,46 @@ func encodePage(ch ChunkSpec, p PageSpec, dictIdx map[string]int) ([]byte, int, 
 		}
 		values = append([]byte{byte(w)}, runs[4:]...)
 		enc = EncPlainDict
+		if ch.Feature == "dict-rle" {
+			enc = 8 // RLE_DICTIONARY
+		}
+	case p.Feature == "enc-bss" && (col.Type == TypeInt32 || col.Type == TypeInt64 || col.Type == TypeFloat || col.Type == TypeDouble):
+		// BYTE_STREAM_SPLIT (9): byte j of every value, stream after stream - same length as PLAIN
+		plain := PlainEncode(col.Type, p.Values)
+		k := 4
+		if col.Type == TypeInt64 || col.Type == TypeDouble {
+			k = 8
+		}
+		n := len(p.Values)
+		values = make([]byte, len(plain))
+		for i := 0; i < n; i++ {
+			for j := 0; j < k; j++ {
+				values[j*n+i] = plain[i*k+j]
+			}
+		}
+		enc = 9
+	case p.Feature == "enc-delta-ba" && col.Type == TypeByteArray:
+		// DELTA_BYTE_ARRAY (7): prefix lengths (delta binary packed), then the suffixes as DELTA_LENGTH_BYTE_ARRAY
+		pre := make([]int64, len(p.Values))
+		suf := make([]int64, len(p.Values))
+		var data []byte
+		for i, v := range p.Values {
+			l := 0
+			if i > 0 {
+				prev := p.Values[i-1].Bytes
+				for l < len(prev) && l < len(v.Bytes) && prev[l] == v.Bytes[l] {
+					l++
+				}
+			}
+			pre[i], suf[i] = int64(l), int64(len(v.Bytes)-l)
+			data = append(data, v.Bytes[l:]...)
+		}
+		values = append(append(deltaBinaryPacked(pre), deltaBinaryPacked(suf)...), data...)
+		enc = 7
+	case len(p.Feature) > 11 && p.Feature[:11] == "enc-future-":
+		// an encoding id this reader has never heard of; the body is laid out like PLAIN, the id alone must make it refuse
+		values = PlainEncode(col.Type, p.Values)
+		fmt.Sscanf(p.Feature[11:], "%d", &enc)
 	case p.Feature == "enc-rle-bool" && col.Type == TypeBoolean:
 		b := make([]uint8, len(p.Values))
 		for i, v := range p.Values {
@@ -502,7 +626,7 @@ func encodePage(ch ChunkSpec, p PageSpec, dictIdx map[string]int) ([]byte, int, 
 		dp.SetI32(4, EncBitPacked)
 	}
 	if p.Stats {
-		dp.SetSt(5, statsStruct(p, col.MaxDef))
+		dp.SetSt(5, statsStruct(col, p, col.MaxDef))
 	}
 	ph := NewSt().SetI32(1, PageData).SetI32(2, int64(len(payload))).SetI32(3, int64(len(body))).SetSt(5, dp)
 	if p.Extras {
@@ -539,7 +663,7 @@ func WriteFile(spec FileSpec) ([]byte, error) {
 			var nvals, usize int64
 			var dictIdx map[string]int
 			dictOff := int64(-1)
-			if ch.Feature == "dict" {
+			if ch.Feature == "dict" || ch.Feature == "dict-rle" {
 				dictIdx = map[string]int{}
 				var dvals []Val
 				for _, p := range ch.Pages {
@@ -559,7 +683,11 @@ func WriteFile(spec FileSpec) ([]byte, error) {
 				if err != nil {
 					return nil, err
 				}
-				dh := NewSt().SetI32(1, int64(len(dvals))).SetI32(2, EncPlainDict)
+				denc := int64(EncPlainDict)
+				if ch.Feature == "dict-rle" {
+					denc = EncPlain
+				}
+				dh := NewSt().SetI32(1, int64(len(dvals))).SetI32(2, denc)
 				ph := NewSt().SetI32(1, PageDict).SetI32(2, int64(len(payload))).SetI32(3, int64(len(body))).SetSt(7, dh)
 				dictOff = int64(len(out))
 				hb := thriftBytes(ph)
@@ -597,7 +725,7 @@ func WriteFile(spec FileSpec) ([]byte, error) {
 			}
 			encs := []TVal{{T: TI32, I: EncPlain}, {T: TI32, I: EncRLE}}
 			if dictIdx != nil {
-				encs = append(encs, TVal{T: TI32, I: EncPlainDict})
+				encs = append(encs, TVal{T: TI32, I: map[bool]int64{true: 8, false: EncPlainDict}[ch.Feature == "dict-rle"]})
 			}
 			var path []TVal
 			for _, s := range ch.Col.Path {
